@@ -140,10 +140,12 @@ func cmdCheck(args []string) {
 	}
 	var results []*FuncResult
 	var items []item
+	owner := map[*Obl]*FuncResult{}
 	for _, k := range keys {
 		res := e.Verify(k)
 		results = append(results, res)
 		for _, o := range res.Obls {
+			owner[o] = res
 			if !oblInProp(o, *prop) {
 				o.Status = "skipped"
 				continue
@@ -240,7 +242,7 @@ func cmdCheck(args []string) {
 		}
 		violations++
 		rp := filepath.Join(replayDir, fmt.Sprintf("%s_%s.txt", *prop, smtName(o.Name)))
-		found := writeReplay(e, rp, *prop, o, *repo, *oracleDir, seed, *tier)
+		found := writeReplay(e, rp, *prop, o, owner[o], vcDir, *repo, *oracleDir, seed, *tier)
 		ln := fmt.Sprintf("VIOLATION property=%s replay=%s", *prop, rp)
 		if !found {
 			ln += " no-failing-input-found"
@@ -437,14 +439,34 @@ func (vc *VC) vacuity(dir string) string {
 
 // writeReplay records a failed obligation and tries to obtain a concrete failing
 // input on the real code through the property's oracle harness.
-func writeReplay(e *Engine, path, prop string, o *Obl, repo, oracleDir string, seed int64, tier string) bool {
+func writeReplay(e *Engine, path, prop string, o *Obl, res *FuncResult, vcDir, repo, oracleDir string, seed int64, tier string) bool {
 	var sb strings.Builder
 	fmt.Fprintf(&sb, "property: %s\nfailed obligation: %s\nfunction: %s (line %d)\nclause: %s\nsolver: %s status=%s time=%.2fs\nsmt file: %s\n", prop, o.Name, o.Func, o.Line, o.Src, o.Solver, o.Status, o.TimeS, o.File)
 	sb.WriteString("--- solver output ---\n")
 	sb.WriteString(tail(o.Model, 200))
 	sb.WriteString("\n")
-	ok, out := runOracle(repo, oracleDir, prop, seed, tier)
 	found := false
+	if res != nil && res.VC != nil {
+		ro := e.replayModel(res, o, repo, oracleDir, vcDir)
+		if ro.Tried {
+			sb.WriteString("--- counterexample from the solver model, replayed on the real code ---\n")
+			sb.WriteString(ro.Inputs + "\n")
+			if ro.Failed {
+				found = true
+				sb.WriteString("RESULT: the real code FAILS on this input\n")
+			} else {
+				sb.WriteString("RESULT: the real code does not fail on this input (" + ro.Comment + ")\n")
+			}
+			sb.WriteString(tail(ro.Output, 40) + "\n--- generated test ---\n" + ro.Source + "\n")
+		} else {
+			sb.WriteString("--- model replay not attempted: " + ro.Comment + " ---\n")
+		}
+	}
+	if found {
+		os.WriteFile(path, []byte(sb.String()), 0o644)
+		return true
+	}
+	ok, out := runOracle(repo, oracleDir, prop, seed, tier)
 	if strings.Contains(out, "NO-ORACLE") {
 		sb.WriteString("--- no executable oracle for this property ---\n")
 	} else if !ok {
